@@ -453,6 +453,17 @@ type errMissingTypes []missingType // inv: len > 0
 
 var _ digError = errMissingTypes(nil)
 
+// arrayOf is reflect.ArrayOf, except that it reports failure instead of
+// panicking when the array type would be too large to exist.
+func arrayOf(length int, elem reflect.Type) (t reflect.Type, ok bool) {
+	defer func() {
+		if recover() != nil {
+			t, ok = nil, false
+		}
+	}()
+	return reflect.ArrayOf(length, elem), true
+}
+
 func newErrMissingTypes(c containerStore, k key) errMissingTypes {
 	// Possible types we will look for in the container. We will always look
 	// for pointers to the requested type and some extras on a per-Kind basis.
@@ -476,12 +487,16 @@ func newErrMissingTypes(c containerStore, k key) errMissingTypes {
 
 	if k.t.Kind() == reflect.Array {
 		// Maybe the user meant an array of pointers while we have the array of elements
-		suggestions = append(suggestions, reflect.ArrayOf(k.t.Len(), reflect.PointerTo(k.t.Elem())))
+		if t, ok := arrayOf(k.t.Len(), reflect.PointerTo(k.t.Elem())); ok {
+			suggestions = append(suggestions, t)
+		}
 
 		// Maybe the user meant an array of elements while we have the array of pointers
 		arrayElement := k.t.Elem()
 		if arrayElement.Kind() == reflect.Ptr {
-			suggestions = append(suggestions, reflect.ArrayOf(k.t.Len(), arrayElement.Elem()))
+			if t, ok := arrayOf(k.t.Len(), arrayElement.Elem()); ok {
+				suggestions = append(suggestions, t)
+			}
 		}
 	}
 
